@@ -5,6 +5,7 @@ package peering
 import (
 	"errors"
 	"net"
+	"net/netip"
 	"time"
 
 	"github.com/mycoria/mycoria/config"
@@ -79,3 +80,55 @@ func (c *vfConn) RemoteAddr() net.Addr               { return nil }
 func (c *vfConn) SetDeadline(t time.Time) error      { return nil }
 func (c *vfConn) SetReadDeadline(t time.Time) error  { return nil }
 func (c *vfConn) SetWriteDeadline(t time.Time) error { return nil }
+
+// VfLink is a recording Link for harnesses of other packages.
+type VfLink struct {
+	Label   m.SwitchLabel
+	PeerIP  netip.Addr
+	IsLite  bool
+	Closing bool
+	Sent    []frame.Frame
+	Prio    []frame.Frame
+	SendErr error
+	Flow    frame.FlowControlFlag
+	Lat     uint16
+}
+
+func (l *VfLink) String() string             { return "vflink" }
+func (l *VfLink) Peer() netip.Addr           { return l.PeerIP }
+func (l *VfLink) SwitchLabel() m.SwitchLabel { return l.Label }
+func (l *VfLink) GeoMark() string            { return "" }
+func (l *VfLink) PeeringURL() *m.PeeringURL  { return nil }
+func (l *VfLink) Outgoing() bool             { return false }
+func (l *VfLink) Lite() bool                 { return l.IsLite }
+func (l *VfLink) SendPriority(f frame.Frame) error {
+	l.Prio = append(l.Prio, f)
+	vf.Event("link.send")
+	return l.SendErr
+}
+func (l *VfLink) Send(f frame.Frame) error {
+	l.Sent = append(l.Sent, f)
+	vf.Event("link.send")
+	return l.SendErr
+}
+func (l *VfLink) LocalAddr() net.Addr                          { return nil }
+func (l *VfLink) RemoteAddr() net.Addr                         { return nil }
+func (l *VfLink) Started() time.Time                           { return time.Time{} }
+func (l *VfLink) Uptime() time.Duration                        { return 0 }
+func (l *VfLink) Latency() uint16                              { return l.Lat }
+func (l *VfLink) AddMeasuredLatency(latency time.Duration)     {}
+func (l *VfLink) BytesIn() uint64                              { return 0 }
+func (l *VfLink) BytesOut() uint64                             { return 0 }
+func (l *VfLink) FlowControlIndicator() frame.FlowControlFlag  { return l.Flow }
+func (l *VfLink) IsClosing() bool                              { return l.Closing }
+func (l *VfLink) Close(log func())                             { l.Closing = true; vf.Event("link.close") }
+
+// VfNewPeering builds a Peering whose registry holds exactly the given links.
+func VfNewPeering(inst instance, links ...Link) *Peering {
+	p := &Peering{instance: inst, links: map[netip.Addr]Link{}, linksByLabel: map[m.SwitchLabel]Link{}}
+	for _, l := range links {
+		p.links[l.Peer()] = l
+		p.linksByLabel[l.SwitchLabel()] = l
+	}
+	return p
+}
